@@ -140,7 +140,14 @@ def gen_sibling_program(rng, dtype):
         a = chain(0, int(rng.integers(0, 4)))
         terms = [a]
         if use_sibling:
-            terms.append(chain(2, int(rng.integers(0, 4))))
+            how = ["chain", "both", "double_edge_only"][int(rng.integers(3))]
+            if how != "double_edge_only":
+                terms.append(chain(2, int(rng.integers(0, 4))))
+            if how != "chain":
+                # ONE node consuming the feature and its sibling directly (two edges to the same multi-output node), both orders
+                nodes.append({"op": "mul", "args": [0, 2] if rng.random() < 0.5 else [2, 0]})
+                nodes.append({"op": "sumall", "args": [base + len(nodes) - 1]})
+                terms.append(base + len(nodes) - 1)
         nodes.append({"op": "sumall", "args": [1]})
         terms.append(base + len(nodes) - 1)
         order = list(rng.permutation(len(terms)))
